@@ -14,6 +14,7 @@
 package seam
 
 import (
+	"github.com/jackc/pgx/v5/pgconn"
 	"context"
 	"database/sql"
 	"database/sql/driver"
@@ -78,6 +79,9 @@ const (
 	FaultNone FaultMode = iota
 	FaultError
 	FaultCancel
+	// FaultDeadlock: the statement fails the way PostgreSQL reports a deadlock
+	// (SQLSTATE 40P01) - the one storage error the code under test retries on
+	FaultDeadlock
 )
 
 // Fault describes one injected fault: the K-th (1-based) countable event
@@ -252,6 +256,8 @@ func (c *Control) step(ctx context.Context, actor string, kind Kind, q string) e
 			switch f.Mode {
 			case FaultError:
 				inject = ErrInjected
+			case FaultDeadlock:
+				inject = &pgconn.PgError{Severity: "ERROR", Code: "40P01", Message: "deadlock detected (injected)"}
 			case FaultCancel:
 				cancel = f.Cancel
 			}
